@@ -355,6 +355,57 @@ class _Inliner:
                         out.extend(self.stmt_inline(new2))
                         self.changed = True
                         continue
+            # `return list(gen(args))` / `x = list(gen(args))` with a module-level generator: an accumulator takes the yields
+            if isinstance(st, (ast.Return, ast.Assign)) and isinstance(st.value, ast.Call) and isinstance(st.value.func, ast.Name) and st.value.func.id in ("list", "tuple") and len(st.value.args) == 1 and not st.value.keywords and isinstance(st.value.args[0], ast.Call) and self.lookup(st.value.args[0]) is not None and (isinstance(st, ast.Return) or (len(st.targets) == 1 and isinstance(st.targets[0], ast.Name))):
+                gcall = st.value.args[0]
+                g_ = self.lookup(gcall)
+                gb = _body_wo_doc(g_)
+                ys = [n for b_ in gb for n in ast.walk(b_) if isinstance(n, (ast.Yield, ast.YieldFrom))]
+                y_stmts = [n for b_ in gb for n in ast.walk(b_) if isinstance(n, ast.Expr) and isinstance(n.value, ast.Yield) and n.value.value is not None]
+                rets = [n for b_ in gb for n in ast.walk(b_) if isinstance(n, ast.Return)]
+                # (a bare `return` is fine when it is a guard clause at the top of the generator: restructured below)
+                gen_ok = ys and len(ys) == len(y_stmts) and all(r.value is None for r in rets) and not _has_nested_def(gb) and not g_.decorator_list
+                m_ = self.binding(g_, gcall, gb) if gen_ok else None
+                if m_ is not None:
+                    self.counter += 1
+                    acc = f"acc__{g_.name}{self.counter}"
+                    def _guards(ss: List[ast.stmt]) -> List[ast.stmt]:
+                        # `if T: return` followed by REST  ->  `if not T: REST`
+                        o_: List[ast.stmt] = []
+                        for i_, s_ in enumerate(ss):
+                            if isinstance(s_, ast.If) and not s_.orelse and len(s_.body) == 1 and isinstance(s_.body[0], ast.Return) and s_.body[0].value is None:
+                                rest_ = _guards(ss[i_ + 1 :])
+                                if rest_:
+                                    neg_ = s_.test.operand if isinstance(s_.test, ast.UnaryOp) and isinstance(s_.test.op, ast.Not) else ast.UnaryOp(op=ast.Not(), operand=s_.test)
+                                    o_.append(ast.copy_location(ast.If(test=neg_, body=rest_, orelse=[]), s_))
+                                return o_
+                            if isinstance(s_, ast.Return) and s_.value is None and i_ == len(ss) - 1:
+                                return o_
+                            o_.append(s_)
+                        return o_
+
+                    body2 = _guards(copy.deepcopy(gb)) if rets else copy.deepcopy(gb)
+                    if not any(isinstance(n, ast.Return) for b_ in body2 for n in ast.walk(b_)):
+                        new_ = self.rename_locals(g_, body2, m_)
+
+                        class _Y2(ast.NodeTransformer):
+                            def visit_Expr(self, n):
+                                if isinstance(n.value, ast.Yield) and n.value.value is not None:
+                                    call_ = ast.Call(func=ast.Attribute(value=ast.Name(id=acc, ctx=ast.Load()), attr="append", ctx=ast.Load()), args=[n.value.value], keywords=[])
+                                    return ast.copy_location(ast.Expr(value=call_), n)
+                                return n
+
+                        new2 = [ast.Assign(targets=[ast.Name(id=acc, ctx=ast.Store())], value=ast.List(elts=[], ctx=ast.Load()))]
+                        for b_ in new_:
+                            new2.append(_Y2().visit(b_))
+                        tail = ast.Name(id=acc, ctx=ast.Load()) if st.value.func.id == "list" else ast.Call(func=ast.Name(id="tuple", ctx=ast.Load()), args=[ast.Name(id=acc, ctx=ast.Load())], keywords=[])
+                        new2.append(ast.Return(value=tail) if isinstance(st, ast.Return) else ast.Assign(targets=st.targets, value=tail))
+                        _relocate(new2, st)
+                        for b_ in new2:
+                            ast.fix_missing_locations(b_)
+                        out.extend(self.stmt_inline(new2[:-1]) + [new2[-1]])
+                        self.changed = True
+                        continue
             # `x = h(f.read(30))` where h uses its parameter more than once: the argument is evaluated once, into a temporary
             if isinstance(st, (ast.Expr, ast.Assign, ast.Return)) and isinstance(st.value, ast.Call) and self.lookup(st.value) is not None and not st.value.keywords and not any(isinstance(a_, ast.Starred) for a_ in st.value.args):
                 fn0 = self.lookup(st.value)
@@ -642,6 +693,42 @@ def _inline_list_temps(fn: ast.FunctionDef):
             seq = getattr(node, fld, None)
             if isinstance(seq, list) and seq and isinstance(seq[0], ast.stmt):
                 setattr(node, fld, do(seq))
+
+
+def inline_once_locals(fn: ast.FunctionDef) -> ast.FunctionDef:
+    """A copy of fn in which every local that is bound exactly once (plain assignment of a call-free comparison / boolean
+    expression, or of a constructor call) is replaced by its defining expression at its uses: `is_break = K(...)` ...
+    `BasicIf(is_break, ...)` reads as `BasicIf(K(...), ...)`.  Order of evaluation only matters for side effects, and the
+    expressions taken are constructor calls and comparisons of parameters."""
+    fn = copy.deepcopy(fn)
+    for _ in range(4):
+        stores: Dict[str, int] = {}
+        for n in ast.walk(fn):
+            if isinstance(n, ast.Name) and isinstance(n.ctx, ast.Store):
+                stores[n.id] = stores.get(n.id, 0) + 1
+        params = {a.arg for a in fn.args.args + fn.args.kwonlyargs}
+        defs: Dict[str, ast.AST] = {}
+        for n in ast.walk(fn):
+            if isinstance(n, ast.Assign) and len(n.targets) == 1 and isinstance(n.targets[0], ast.Name) and stores.get(n.targets[0].id) == 1 and n.targets[0].id not in params:
+                v = n.value
+                pure = isinstance(v, (ast.Compare, ast.BoolOp, ast.UnaryOp)) and not any(isinstance(x, ast.Call) for x in ast.walk(v))
+                ctor = isinstance(v, ast.Call) and isinstance(v.func, ast.Name) and v.func.id[:1].isupper()
+                if (pure or ctor) and not any(isinstance(x, ast.Name) and stores.get(x.id, 0) > 1 for x in ast.walk(v)):
+                    defs[n.targets[0].id] = v
+        if not defs:
+            break
+
+        class _Drop(ast.NodeTransformer):
+            def visit_Assign(self, a):
+                if len(a.targets) == 1 and isinstance(a.targets[0], ast.Name) and a.targets[0].id in defs and a.value is defs[a.targets[0].id]:
+                    return None
+                return self.generic_visit(a)
+
+        _Drop().visit(fn)
+        for fld in ("body",):
+            fn.body = [_Subst(defs).visit(b) for b in fn.body]
+        ast.fix_missing_locations(fn)
+    return fn
 
 
 def _class_constants(t: ast.Module):
